@@ -167,6 +167,12 @@ pub struct WorldCfg {
     /// allowance every holder grants to every pair and to the router on every cw20
     #[serde(with = "s128")]
     pub allowance: u128,
+    /// native denoms of the world (empty = the default alphabet); all are funded, and registered at
+    /// the factory unless listed in `unregistered`
+    #[serde(default)]
+    pub denoms: Vec<String>,
+    #[serde(default)]
+    pub unregistered: Vec<usize>,
 }
 
 #[derive(Clone, Debug)]
@@ -679,7 +685,11 @@ impl World {
     /// Build a world. Err = the configuration could not be set up (harness problem, not a verdict).
     pub fn build(cfg: &WorldCfg) -> Result<World, String> {
         let owner = Addr::unchecked(OWNER);
-        let natives: Vec<String> = DENOMS.iter().take(cfg.native_decimals.len()).map(|s| s.to_string()).collect();
+        let natives: Vec<String> = if cfg.denoms.is_empty() {
+            DENOMS.iter().take(cfg.native_decimals.len()).map(|s| s.to_string()).collect()
+        } else {
+            cfg.denoms.clone()
+        };
         let actors: Vec<Addr> = (0..cfg.n_actors).map(actor_addr).collect();
         let bystanders: Vec<Addr> = (0..cfg.n_bystanders).map(bystander_addr).collect();
         let holders: Vec<Addr> = actors.iter().chain(bystanders.iter()).cloned().collect();
@@ -708,6 +718,9 @@ impl World {
         let proxy = app.instantiate_contract(codes.proxy, owner.clone(), &Empty {}, &[], "proxy", None).map_err(e)?;
         // register denoms
         for (i, d) in natives.iter().enumerate() {
+            if cfg.unregistered.contains(&i) {
+                continue;
+            }
             app.send_tokens(owner.clone(), factory.clone(), &[Coin { denom: d.clone(), amount: Uint128::new(1) }]).map_err(e)?;
             app.execute_contract(
                 owner.clone(),
